@@ -1440,6 +1440,10 @@ def check_options(tier, seed, chk, prop, sources=None):
                 want_counters[3] = 7   # Bencher::counter(ItemsCount 7) replaces only its own kind
             if b.get("style") == "values":
                 want_counters[0] = 3   # input_counter(BytesCount 3 per input) replaces only its own kind
+            if b.get("style") == "values_chars":
+                want_counters[1] = 4   # input_counter(CharsCount 3 + 1 per input)
+            if b.get("style") == "refs_cycles_items":
+                want_counters[2], want_counters[3] = 5, 10   # two per-input counters of different kinds
             for _, st in stats_by_bench.get(c["path"], []):
                 if st["sample_count"] == 0:
                     continue
